@@ -4,7 +4,7 @@
    constituent factories (checks/gates_trace.py). Statements only; proofs are boolean reflection through
    Proofs/CompositeProofs.own_params_ok_sound. *)
 From Coq Require Import QArith List String Bool.
-Require Import QG.Sym.Expr QG.Sym.ExprEq QG.Model.GateModel QG.Model.Composite QG.Proofs.CompositeProofs QG.Gen.GenGates.
+Require Import QG.Sym.Expr QG.Sym.ExprEq QG.Model.GateModel QG.Model.Composite QG.Proofs.CompositeProofs QG.Proofs.C06Refl QG.Gen.GenGates.
 Import ListNotations.
 Close Scope Q_scope.
 Open Scope string_scope.
@@ -47,6 +47,14 @@ Theorem C06_pcr_derivation_inputs :
   pcr_reads_only_errors gen_comp_ECR = true /\ pcr_reads_only_errors gen_comp_ECR_inv = true.
 Proof. vm_compute. repeat split. Qed.
 Print Assumptions C06_pcr_derivation_inputs.
+
+(* The derived two-qubit error itself: p_cr = (4/3)(1 - ((1 - 3/4 p_gate)^2 / ((1 - 3/4 p_ctr)^2 (1 - 3/4 p_trg)^k))^(1/4)) with k = 1 for
+   CNOT, ECR and reversed ECR and k = 3 for the reversed CNOT — every ingredient (both single-qubit errors, the gate error) enters
+   exactly as the package derives it; in particular p_cr = 0 exactly when the gate error equals the combined single-qubit errors. *)
+Theorem C06_pcr_formula :
+  pcr_formula_ok gen_comp_CNOT 1 && pcr_formula_ok gen_comp_CNOT_inv 3 && pcr_formula_ok gen_comp_ECR 1 && pcr_formula_ok gen_comp_ECR_inv 1 = true.
+Proof. exact pcr_formulas. Qed.
+Print Assumptions C06_pcr_formula.
 
 (* Non-vacuity: the CNOT product really contains six constituents, two of them cross-resonance pulses. *)
 Example C06_example : List.length (cp_calls gen_comp_CNOT) = 6 /\ List.length (filter (fun c => factory_eqb (c_fac c) FCR) (cp_calls gen_comp_CNOT)) = 2
